@@ -1,7 +1,7 @@
 PROP = dict(
     coq=["Stats/StatsHarness.vo"],
     legs=[
-        dict(driver="stats", binary="zstats", race=True, quick=300, thorough=6000, shard=25,
+        dict(driver="stats", binary="zstats", race=True, quick=300, thorough=4000, shard=25,
              env={"GORACE": "exitcode=0"},
              monitors=["totals_exact (total = initial + number of events, resets notwithstanding)",
                        "mean_exact (count = #adds, sum = sum of values; getter = sum/count)",
